@@ -66,10 +66,10 @@ pub fn explore(ex: &Ex) {
         let slots: &[Item] = match (arity, ex.scale) {
             (_, Scale::Small) => &tiny,
             (3, _) => &full,
-            (4, Scale::Quick) => &small,
+            (4, Scale::Quick) => &full,
             (4, Scale::Thorough) => &full,
-            (5, Scale::Quick) => &tiny,
-            (5, Scale::Thorough) => &small,
+            (5, Scale::Quick) => &small,
+            (5, Scale::Thorough) => &full,
             _ => &small,
         };
         let space = format!("c09.arity{}", arity);
@@ -81,7 +81,7 @@ pub fn explore(ex: &Ex) {
         });
     }
     // mixed alphabet for arity 4 in quick: full alphabet in the two header slots and the payload slot
-    if ex.scale == Scale::Quick {
+    if false {
         // [full, full, small, small]
         let enc_full: Vec<Vec<u8>> = full.iter().map(|s| s.det()).collect();
         let enc_small: Vec<Vec<u8>> = small.iter().map(|s| s.det()).collect();
